@@ -12,7 +12,7 @@ import (
 )
 
 func init() {
-	register("C15", "lines with no, one, several, valueless and present-but-empty tag sections and 0..15 arguments delivered over a real connection to 2..4 foreground and 1..3 background handlers that are chained so that each one first records the line it received, then overwrites every argument, appends to the argument slice, rewrites and adds tags, and only then lets the next handler look; what every invocation saw must equal the parsed event (compared with the real ParseLine of the same bytes); later events must be unaffected; non-trivial = every line; distinct by line bytes", c15)
+	register("C15", "lines with no, one, several, valueless and present-but-empty tag sections and 0..15 arguments delivered over a real connection to 2..4 foreground and 1..3 background handlers that are chained so that each one first records the line it received, then overwrites every argument, appends to the argument slice, rewrites and adds tags, and only then lets the next handler look; what every invocation saw must equal the parsed event (compared with the real ParseLine of the same bytes); later events must be unaffected; two more handlers (one foreground, one background) keep every *Line they are given and after the session every kept line must still say what it said; non-trivial = every line; distinct by line bytes", c15)
 }
 
 func c15(c *Ctx) {
@@ -55,7 +55,23 @@ func c15(c *Ctx) {
 			l.Nick, l.Cmd = "scribbled", "SCRIBBLED"
 			tk <- struct{}{}
 		}
+		// keepers: handlers that change nothing but keep the *Line they were given (with a record of what it said):
+		// nothing that happens later - other handlers' edits, the dispatch of later lines - may change a kept line
+		type kept struct {
+			l   *client.Line
+			enc string
+		}
+		var keptMu sync.Mutex
+		var keeps []kept
+		keeper := func(_ *client.Conn, l *client.Line) {
+			e := encLine(l)
+			keptMu.Lock()
+			keeps = append(keeps, kept{l, e})
+			keptMu.Unlock()
+		}
 		sess, err := newSession(nil, func(cn *client.Conn) {
+			cn.HandleFunc("PRIVMSG", keeper)
+			cn.HandleBG("PRIVMSG", client.HandlerFunc(keeper))
 			for i := 0; i < nfg; i++ {
 				cn.HandleFunc("PRIVMSG", handler)
 			}
@@ -102,6 +118,17 @@ func c15(c *Ctx) {
 		}, 3*time.Second)
 		sess.close()
 		c.Res.Traces++
+		keptMu.Lock()
+		for _, k := range keeps {
+			c.Res.Evaluations++
+			if now := encLine(k.l); now != k.enc {
+				c.SpecFail("spec", fmt.Sprintf("a line kept by a handler after it returned was changed by what happened later (line %q)", trunc(k.l.Raw, 60)), "", "kept: "+k.enc+" ; now: "+now,
+					map[string]interface{}{"op": "keep-line", "line_hex": drv.H(k.l.Raw), "fg": nfg, "bg": nbg})
+				break
+			}
+		}
+		c.Dist(fmt.Sprintf("kept-lines-checked=%d", len(keeps)/100*100))
+		keptMu.Unlock()
 		mu.Lock()
 		for _, r := range raws {
 			want := encLine(client.ParseLine(r))
